@@ -28,6 +28,9 @@ var zzCannotStart = map[string]bool{
 }
 
 func zzOptDuration(label string, lo, hi time.Duration) (*metav1.Duration, time.Duration) {
+	if zzC06Narrow && label != "maxSlowStart" {
+		return nil, 0
+	}
 	if !nondet.Bool(label + ".set") {
 		return nil, 0
 	}
@@ -39,6 +42,9 @@ func zzOptDuration(label string, lo, hi time.Duration) (*metav1.Duration, time.D
 // also be missing (matters where the code tests for nil); otherwise "absent" is covered by
 // status False in the quick tier and explored separately in the thorough tier.
 func zzRSCond(rs *datadoghqv1alpha1.ExtendedDaemonSetReplicaSet, label string, t datadoghqv1alpha1.ExtendedDaemonSetReplicaSetConditionType, mayBeAbsent bool) (present, isTrue bool, update, transition time.Time) {
+	if zzC06Narrow {
+		return
+	}
 	if (mayBeAbsent || nondet.Thorough()) && !nondet.Bool(label+".present") {
 		return
 	}
@@ -55,7 +61,12 @@ func zzRSCond(rs *datadoghqv1alpha1.ExtendedDaemonSetReplicaSet, label string, t
 
 // zzC06 runs manageCanaryStatus on nPods up-to-date canary pods (one node each) and
 // checks the auto-fail / auto-pause triggers of property C06.
+// narrow: conditions and annotations absent, durations unset except maxSlowStartDuration — used
+// to afford two pods in the quick tier.
+var zzC06Narrow bool
+
 func zzC06(nPods int) {
+	narrow := zzC06Narrow
 	now := nondet.TimeNs("now", 0, 24*time.Hour)
 	ds := zzDaemonset(map[string]string{})
 	canary := &datadoghqv1alpha1.ExtendedDaemonSetSpecStrategyCanary{}
@@ -82,13 +93,13 @@ func zzC06(nPods int) {
 	// annotations: present with an arbitrary value (absent behaves like "false"; absence
 	// itself is explored in the thorough tier)
 	annPaused := false
-	if !nondet.Thorough() || nondet.Bool("annPaused.present") {
+	if !narrow && (!nondet.Thorough() || nondet.Bool("annPaused.present")) {
 		v := nondet.String("annPaused", "true", "false")
 		ann[datadoghqv1alpha1.ExtendedDaemonSetCanaryPausedAnnotationKey] = v
 		annPaused = v == "true"
 	}
 	unpaused := false
-	if !nondet.Thorough() || nondet.Bool("annUnpaused.present") {
+	if !narrow && (!nondet.Thorough() || nondet.Bool("annUnpaused.present")) {
 		v := nondet.String("annUnpaused", "true", "false")
 		ann[datadoghqv1alpha1.ExtendedDaemonSetCanaryUnpausedAnnotationKey] = v
 		unpaused = v == "true"
@@ -224,12 +235,14 @@ func zzC06(nPods int) {
 	nondet.Observe("nCreate", len(res.PodsToCreate))
 	if nPods > 0 {
 		nondet.Reach("C06.fail-by-restarts", nondet.And(res.IsFailed, !prevFailed, anyOverFail))
-		nondet.Reach("C06.fail-by-span", nondet.And(res.IsFailed, !prevFailed, !anyOverFail, spanOver))
-		nondet.Reach("C06.fail-by-timeout", nondet.And(res.IsFailed, !prevFailed, !anyOverFail, !spanOver, timedOut))
+		if !narrow {
+			nondet.Reach("C06.fail-by-span", nondet.And(res.IsFailed, !prevFailed, !anyOverFail, spanOver))
+			nondet.Reach("C06.fail-by-timeout", nondet.And(res.IsFailed, !prevFailed, !anyOverFail, !spanOver, timedOut))
+			nondet.Reach("C06.unpause-wins", nondet.And(unpaused, pauseTrigger, !res.IsPaused, !res.IsFailed))
+		}
 		nondet.Reach("C06.pause-by-restarts", nondet.And(res.IsPaused, !prevPaused, anyOverPause))
 		nondet.Reach("C06.pause-by-start-error", nondet.And(res.IsPaused, !prevPaused, !anyOverPause, anyStartError))
 		nondet.Reach("C06.pause-by-slow-create", nondet.And(res.IsPaused, !prevPaused, !anyOverPause, !anyStartError, anyPendingTooLong))
-		nondet.Reach("C06.unpause-wins", nondet.And(unpaused, pauseTrigger, !res.IsPaused, !res.IsFailed))
 		nondet.Reach("C06.slow-start-gates", nondet.And(autoPause, !res.IsPaused, !res.IsFailed, !unpaused, slowStartP != nil))
 	}
 	nondet.Reach("C06.creates", nondet.And(!res.IsPaused, !res.IsFailed, len(res.PodsToCreate) == 1))
@@ -244,6 +257,7 @@ func zzTermReason(l string) string {
 
 // ZZ_C06_triggers: one canary pod (quick) / two canary pods (thorough).
 func ZZ_C06_triggers() {
+	zzC06Narrow = false
 	if nondet.Thorough() {
 		zzC06(2)
 	} else {
@@ -251,5 +265,15 @@ func ZZ_C06_triggers() {
 	}
 }
 
+// ZZ_C06_twoPods: two canary pods, so that a trigger raised by the first pod must survive the
+// evaluation of the second one (narrow configuration: no previous conditions, no annotations).
+func ZZ_C06_twoPods() {
+	zzC06Narrow = true
+	zzC06(2)
+}
+
 // ZZ_C06_noPods: no up-to-date canary pod exists yet.
-func ZZ_C06_noPods() { zzC06(0) }
+func ZZ_C06_noPods() {
+	zzC06Narrow = false
+	zzC06(0)
+}
